@@ -17,23 +17,23 @@ import (
 	"testing"
 	"time"
 
+	"github.com/libp2p/go-libp2p-kad-dht/internal/verifsim"
 	record "github.com/libp2p/go-libp2p-record"
 	recpb "github.com/libp2p/go-libp2p-record/pb"
-	"github.com/libp2p/go-libp2p-kad-dht/internal/verifsim"
 	"github.com/libp2p/go-libp2p/core/peer"
 	"github.com/libp2p/go-libp2p/p2p/host/peerstore/pstoremem"
 	"pgregory.net/rapid"
 )
 
 type recCloseSc struct {
-	Store    string `json:"store"`       // pm | vs
-	GCms     int    `json:"gc_ms"`       // collector interval: <0, 0, 1, 3600000
-	AgeMs    int    `json:"age_ms"`      // vs: maximum record age (0 = no expiry)
-	StartGC  int    `json:"start_gc"`    // vs: number of StartGC calls (0-2)
-	Op       string `json:"op"`          // "" | add | get (an operation whose first datastore call is held at the gate)
-	NClose   int    `json:"n_close"`     // 1-3
-	LateOp   bool   `json:"late_op"`     // an operation issued after the first Close call was started
-	BadOpt   bool   `json:"bad_option"`  // pm: a failing option (constructor error)
+	Store    string `json:"store"`        // pm | vs
+	GCms     int    `json:"gc_ms"`        // collector interval: <0, 0, 1, 3600000
+	AgeMs    int    `json:"age_ms"`       // vs: maximum record age (0 = no expiry)
+	StartGC  int    `json:"start_gc"`     // vs: number of StartGC calls (0-2)
+	Op       string `json:"op"`           // "" | add | get (an operation whose first datastore call is held at the gate)
+	NClose   int    `json:"n_close"`      // 1-3
+	LateOp   bool   `json:"late_op"`      // an operation issued after the first Close call was started
+	BadOpt   bool   `json:"bad_option"`   // pm: a failing option (constructor error)
 	PreSleep int    `json:"pre_sleep_ms"` // real milliseconds before Close (lets a 1 ms collector run)
 }
 
